@@ -89,6 +89,12 @@ def segments(expr, hook=None, depth=0):
     if isinstance(expr, ast.BinOp) and isinstance(expr.op, ast.Add):
         return segments(expr.left, hook, depth + 1) + segments(
             expr.right, hook, depth + 1)
+    if isinstance(expr, ast.BinOp) and isinstance(expr.op, ast.Mult):
+        for a, b in ((expr.left, expr.right), (expr.right, expr.left)):
+            if isinstance(a, ast.Constant) and isinstance(a.value, str) \
+                    and isinstance(b, ast.Constant) and isinstance(
+                        b.value, int) and 0 <= b.value <= 64:
+                return [Lit(a.value * b.value)]
     if isinstance(expr, ast.BinOp) and isinstance(expr.op, ast.Mod) and \
             isinstance(expr.left, ast.Constant) and isinstance(
                 expr.left.value, str):
